@@ -226,17 +226,22 @@ def probe_foreign_free():
         for back in (1, 2, 3):
             if back >= size - pos or back > off:
                 continue
-            a = eng.ContiguousBlockAllocator(size, pos, off)
-            first = a.alloc(size - pos - back)
-            last = a.alloc(back)                 # starts at relative index size - back
             foreign = off - back                 # below the partition: relative index -back
             ops = [['a', size - pos - back, 0], ['a', back, 0], ['f', foreign], ['a', back, 0]]
             try:
-                a.free(foreign)
-                exc = None
-            except Exception as e:
-                exc = type(e).__name__
-            again = a.alloc(back)
+                a = eng.ContiguousBlockAllocator(size, pos, off)
+                first = a.alloc(size - pos - back)
+                last = a.alloc(back)             # starts at relative index size - back
+                try:
+                    a.free(foreign)
+                    exc = None
+                except Exception as e:
+                    exc = type(e).__name__
+                again = a.alloc(back)
+            except Exception as e:               # alloc/alloc/free/alloc of the alphabet must not raise
+                bad.append({'size': size, 'pos': pos, 'off': off, 'ops': ops, 'returned': [], 'exception': type(e).__name__,
+                            'why': 'an operation of the history raised %s: %s' % (type(e).__name__, e)})
+                continue
             if again is not None and again == last:
                 bad.append({'size': size, 'pos': pos, 'off': off, 'ops': ops, 'returned': [first, last, None, again], 'exception': exc,
                             'why': 'free(%d) -- an address below the partition [%d,%d) -- freed the live block [%d,%d); the next alloc(%d) '
@@ -250,12 +255,20 @@ def main():
     out = {'cases': [x[1] for x in rc], 'ops': [x[0] for x in rc],
            'node': [run_node(c) for c in p.get('node', [])],
            'foreign': probe_foreign_free() if p.get('probe_foreign') else []}
-    rr = [run_reserve_case(c) for c in p.get('reserve_cases', [])]
+    def safe(f, c, dflt):
+        try:
+            return f(c)
+        except Exception as e:
+            return dflt
+    rr = [safe(run_reserve_case, c, ([], [])) for c in p.get('reserve_cases', [])]
     out['reserve_ops'] = [x[0] for x in rr]
     out['reserve_cases'] = [x[1] for x in rr]
-    out['multi'] = [run_multi_case(c) for c in p.get('multi_cases', [])]
+    out['multi'] = [safe(run_multi_case, c, []) for c in p.get('multi_cases', [])]
     if p.get('probe_reserve'):
-        out['reserve_probe'] = probe_reserve_corruption()
+        try:
+            out['reserve_probe'] = probe_reserve_corruption()
+        except Exception as e:
+            out['reserve_probe'] = {'error': '%s: %s' % (type(e).__name__, e), 'corrupts': False}
     json.dump(out, open(sys.argv[2], 'w'))
 
 
